@@ -5,9 +5,10 @@ sys.path.insert(0, os.path.dirname(os.path.dirname(os.path.abspath(__file__))))
 from vlib.registry import PROPS, MANIFEST_TEXT, NOT_APPLICABLE
 
 ALL = ["C%02d" % i for i in range(1, 21)]
+ENABLED = set(open(os.path.join(os.path.dirname(os.path.abspath(__file__)), "enabled.txt")).read().split())
 checks = []
 for pid in ALL:
-    if pid not in PROPS:
+    if pid not in PROPS or pid not in ENABLED:
         continue
     t = MANIFEST_TEXT[pid]
     checks.append({
@@ -23,7 +24,7 @@ for pid in ALL:
     })
 na = []
 for pid in ALL:
-    if pid not in PROPS:
+    if pid not in PROPS or pid not in ENABLED:
         na.append({"property_id": pid, "reason": NOT_APPLICABLE.get(pid, "check not implemented yet in this revision (planned, see DESIGN.md section 4)")})
 m = {
     "version": 1,
